@@ -119,6 +119,8 @@ func (g *gen) value(depth int) interface{} {
 	scalarsRabbit := []mk{
 		func() interface{} { return g.r.Chance(1, 2) },
 		func() interface{} { return int8(g.u64(8)) },
+		func() interface{} { return uint8(g.u64(8)) },
+		func() interface{} { return g.bytes(300) },
 		func() interface{} { return int16(g.u64(16)) },
 		func() interface{} { return int32(g.u64(32)) },
 		func() interface{} { return int64(g.u64(64)) },
